@@ -205,15 +205,18 @@ def collapse_items(items: ExpandedItems, is_linetable: bool) -> CollapsedItems:
             and item.bytecode_offset != 0
         )
         # However, when the line offset is split, the current bytecode offset should be
-        # zero
+        # zero, and the remainder continues in the same direction
         line_offset_split = (
             (prev_item if is_linetable else item).bytecode_offset == 0
-            and (prev_item.line_offset is not None)
+            and prev_item.line_offset is not None
+            and item.line_offset is not None
             and (
-                prev_item.line_offset >= 127
-                or prev_item.line_offset <= (-127 if is_linetable else -128)
+                (prev_item.line_offset >= 127 and item.line_offset > 0)
+                or (
+                    prev_item.line_offset <= (-127 if is_linetable else -128)
+                    and item.line_offset < 0
+                )
             )
-            and item.line_offset != 0
         )
         # Bytecode offset too large, so split between two
         if bytecode_offset_split or line_offset_split:
